@@ -489,6 +489,34 @@ def gen_busy(rnd):
 
 
 
+def gen_spin(rnd):
+    """Steps that never really await: each invocation does blocking work (virtual time passes inside the body) and returns; the
+    next invocation is ready the moment the previous one ends (a chain of steps, or a queue of items behind one worker).  The
+    control loop always finds a completed worker when it looks, so its wait never times out on its own: scheduled ticks
+    (workflow timeout) have to be noticed some other way."""
+    b = rnd.choice([0.2, 0.3, 0.5])
+    shape = rnd.choice(["chain", "queue", "queue"])
+    if shape == "chain":
+        n = rnd.randint(4, 6)
+        types = ["EvA", "EvB", "EvC", "EvD", "EvE", "EvF"][:n]
+        steps = [{"name": "start", "in": ["Go"], "nw": 1, "acts": [{"k": "ret", "type": types[0]}]}]
+        for i, t in enumerate(types):
+            nxt = {"k": "ret", "type": types[i + 1]} if i + 1 < n else {"k": "ret", "type": "StopEvent", "result": "const"}
+            steps.append({"name": f"s{i}", "in": [t], "nw": 1, "acts": [{"k": "burn", "d": b}, nxt]})
+        total = n * b
+    else:
+        k = rnd.randint(4, 8)
+        nw = rnd.choice([1, 1, 2])
+        steps = [
+            {"name": "start", "in": ["Go"], "nw": 1, "acts": [{"k": "send", "type": "EvA", "items": [{} for _ in range(k)]}, {"k": "ret", "type": None}], "declare": ["EvA"]},
+            {"name": "work", "in": ["EvA"], "nw": nw, "acts": [{"k": "burn", "d": b}, {"k": "ret", "type": "EvC"}]},
+            {"name": "join", "in": ["EvC"], "nw": 1, "acts": [{"k": "collect", "types": ["EvC"] * k}, {"k": "ret", "type": "StopEvent", "result": "const"}]},
+        ]
+        total = k * b
+    deadlines = sorted({round(total * f + 0.013, 4) for f in (0.15, 0.4, 0.7)})
+    return {"family": "spin", "steps": steps, "timeout": None, "externals": [], "meta": {"burn": b, "shape": shape, "total": total, "deadlines": deadlines}}
+
+
 def gen_dupfan(rnd):
     """fan-out of byte-identical events into a single-worker step (adjacent identical ticks in the persisted log), fan-in by count.
     The result is a constant, so re-sent duplicates after a resume cannot change it."""
